@@ -134,12 +134,14 @@ def h_perm(n: int, a: int, p: int, nested: bool, kind: int) -> bool:
 
     pre: 1 <= n <= 4 and pinned("n", n) and 0 <= a <= 8 - n and pinned("a", a)
     pre: 0 <= p < 24
-    pre: 0 <= kind <= 1
+    pre: 0 <= kind <= 1 and pinned("kind", kind) and pinned("nested", nested)
     post: _
     """
     import itertools
     n = pin("n", n)
     a = pin("a", a)
+    kind = pin("kind", kind)
+    nested = pin("nested", nested)
     fact = [1, 1, 2, 6, 24][n]
     if p >= fact:
         return True
